@@ -274,6 +274,17 @@ def run(ctx):
             Bg, _ = WG.scramble(WG.to_nx(rb), rng)
             check_pair(ctx, A, Bg, space, ("cls", i, j), light=light)
     ctx.exhaustive[space] = True
+    if not ctx.quick:
+        full = [r for n in range(1, 4) for r in WG.classes(n)]
+        sp2 = "all ordered pairs of class representatives <= 3 nodes, full alphabet (2 elements x hcount{0,1} x orders{1,2})"
+        for i, ra in enumerate(full):
+            for j, rb in enumerate(full):
+                idx += 1
+                if ctx.mine(idx):
+                    A, _ = WG.scramble(WG.to_nx(ra), rng)
+                    Bg, _ = WG.scramble(WG.to_nx(rb), rng)
+                    check_pair(ctx, A, Bg, sp2, ("clsfull", i, j), light=True)
+        ctx.exhaustive[sp2] = True
     # random pairs: relabelled copies, one-edit neighbours, planted sub-patterns, hcount/charge variants
     n = 700 if ctx.quick else 8000
     for t in range(n):
